@@ -208,7 +208,7 @@ def batch_rows(rnd, spec, n):
 
 def run(ctx):
     fl = import_library()
-    nengines = ctx.scale(350, 3000)
+    nengines = ctx.scale(350, 15000)
     maxn = ctx.scale(8, 64)
     ctx.rule = (
         f"every Engine.process call on a batch observed. Workload: {nengines} generated engines under General activation (Mamdani, Larsen, "
